@@ -50,7 +50,7 @@ PRELUDE = r'''
 use core::ops::{Deref, DerefMut};
 pub fn ad<T: ?Sized>(t: &T) -> usize { t as *const T as *const u8 as usize }
 pub fn report(k: &str, rows: &[String]) { println!("OBS {{\"k\": {:?}, \"rows\": [{}]}}", k, rows.iter().map(|r| format!("{:?}", r)).collect::<Vec<_>>().join(", ")); }
-''' + asref_types()
+''' + asref_types() + "\npub mod tm { pub use super::{F1, F2, F3}; }\n"
 
 NAMES = ["a", "b", "c"]
 
@@ -153,12 +153,17 @@ def asref_modules(c, named, variant):
     if ("fwd" in fs or sattr == "fwd") and n > 1 and any(m in ("sel", "tys") for m in fs):
         return out, rej      # a blanket impl next to concrete ones overlaps
     generic = variant == "generic"
+    # 'shadowseg': the struct has a type parameter NAMED like the last segment of the (concrete) field type's path,
+    # `struct S<F1>(tm::F1, PhantomData<F1>)`, and lists the field type through its alias: the field is not generic
+    shadowseg = variant == "shadowseg"
 
     def fty(i):
+        if shadowseg:
+            return f"tm::F{i + 1}"
         return "T" if (generic and i == 0) else f"F{i + 1}"
 
     def tys_list(i):
-        me = f"A{i + 1}" if variant == "alias" else fty(i)
+        me = f"A{i + 1}" if variant in ("alias", "shadowseg") else fty(i)
         return f"G{i + 1}, {me}"
     marks = {}
     fields = []
@@ -167,11 +172,17 @@ def asref_modules(c, named, variant):
              "tys": f"#[as_ref({tys_list(i)})] #[as_mut({tys_list(i)})] "}[m]
         fields.append(f"{a}pub {NAMES[i]}: {fty(i)}" if named else f"{a}pub {fty(i)}")
     st = {"none": "", "fwd": "#[as_ref(forward)]\n#[as_mut(forward)]\n", "tys": f"#[as_ref({tys_list(0)})]\n#[as_mut({tys_list(0)})]\n"}[sattr]
-    g = "<T>" if generic else ""
+    g = "<T>" if generic else ("<F1>" if shadowseg else "")
+    if shadowseg:
+        fields.append("pub ph: core::marker::PhantomData<F1>" if named else "pub core::marker::PhantomData<F1>")
     body = ("{ " + ", ".join(fields) + " }") if named else ("(" + ", ".join(fields) + ");")
     decl = f"#[derive(derive_more::AsRef, derive_more::AsMut)]\n{st}pub struct S{g}{body}"
     vals = [f"F{i + 1}::new({i + 1})" for i in range(n)]
-    init = ("S { " + ", ".join(f"{NAMES[i]}: {v}" for i, v in enumerate(vals)) + " }") if named else ("S(" + ", ".join(vals) + ")")
+    if shadowseg:
+        init = ("S::<u8> { " + ", ".join(f"{NAMES[i]}: {v}" for i, v in enumerate(vals)) + ", ph: core::marker::PhantomData }") if named \
+            else ("S::<u8>(" + ", ".join(vals) + ", core::marker::PhantomData)")
+    else:
+        init = ("S { " + ", ".join(f"{NAMES[i]}: {v}" for i, v in enumerate(vals)) + " }") if named else ("S(" + ", ".join(vals) + ")")
     if doc[0] == "error":
         if variant == "plain":
             rej.append((k, "use super::*;\n" + decl))
@@ -200,7 +211,7 @@ def asref_modules(c, named, variant):
             exp.append(f"as_mut_tys {i} true")
     if not rows:
         return out, rej
-    ann = "<F1>" if generic else ""
+    ann = "<F1>" if generic else ("<u8>" if shadowseg else "")
     mod = (f"use super::*;\n{decl}\npub fn run() {{ let s: S{ann} = {init}; let mut rows: Vec<String> = vec![];\n    " + "\n    ".join(rows) +
            f"\n    report({json.dumps(k)}, &rows); }}")
     out.append((k, mod, exp))
@@ -227,9 +238,11 @@ def run(chk, tier, seed, replay):
                 mods.append((k, m))
                 exps[k] = (e, m)
             rejs += rj
-            for variant in ("plain", "alias", "generic"):
+            for variant in ("plain", "alias", "generic", "shadowseg"):
                 if variant == "alias" and "tys" not in c["fs"] and c["sattr"] != "tys":
                     continue
+                if variant == "shadowseg" and not (all(m in ("tys", "sel", "fwd") for m in c["fs"]) and "tys" in c["fs"] and c["sattr"] == "none"):
+                    continue   # (the extra PhantomData field stays unmarked: only with positive marks on every other field)
                 if variant == "generic" and (len(c["fs"]) != 1 or c["fs"][0] == "ign"):
                     continue   # `impl<T> AsRef<T> for S<T>` next to another field's impl overlaps: one field only
                 o, rj = asref_modules(c, named, variant)
